@@ -104,6 +104,52 @@ def worker(kp, job):
     return {'records': records}
 
 
+def long_worker(kp, job):
+    """a LONG score (260-320 measures) cut into two or three fragments: the pairs, and the export of every pair - the last
+    one ends at the last measure"""
+    seed, idx = job
+    rng = random.Random(seed * 413158523 + idx)
+    nm = rng.randint(260, 320)
+    lines = ['**kern\t**kern', '*clefG2\t*clefF4', '*M4/4\t*M4/4']
+    notes = ['4c', '4d', '8e', '2f', '4g', '4a', '4b', '4cc']
+    bar_at = []
+    for m in range(1, nm + 1):
+        bar_at.append(len(lines))
+        lines.append(f'={m}\t={m}')
+        for _ in range(rng.randint(1, 2)):
+            lines.append(rng.choice(notes) + '\t' + rng.choice(notes))
+    lines += ['==\t==', '*-\t*-']
+    cuts = sorted(rng.sample(bar_at[5:-5], rng.randint(1, 2)))
+    frags, prev = [], 0
+    for c in cuts:
+        frags.append(lines[prev:c])
+        prev = c
+    frags.append(lines[prev:])
+    viol = []
+    w = {'text_lines': len(lines), 'measures_written': nm, 'cut_lines': cuts}
+    try:
+        ftexts = ['\n'.join(f) for f in frags]
+        doc, pairs = kp.concat(ftexts, separator='\n')
+        M = doc.measures_count()
+        if len(pairs) != len(frags) or pairs[0][0] != 0 or any(pairs[i + 1][0] != pairs[i][1] + 1 for i in range(len(pairs) - 1)) or pairs[-1][1] != M:
+            viol.append(('pairs', f'long score: pairs {pairs} for {len(frags)} fragments and {M} measures', w))
+        def data(ls):
+            return [l for l in ls if l and not l.startswith(('=', '*', '!'))]
+        for i, (lo, hi) in enumerate(pairs):
+            try:
+                out = kp.dumps(doc, from_measure=lo, to_measure=hi).split('\n')
+            except Exception as e:
+                viol.append(('fragment-export', f'long score of {M} measures: exporting pair {i} = ({lo},{hi}) raised err:{type(e).__name__}', dict(w, pair=[lo, hi])))
+                continue
+            if data(out) != data(frags[i]):
+                viol.append(('fragment-export', f'long score of {M} measures: exporting pair {i} = ({lo},{hi}) gives {len(data(out))} data lines, fragment {i} has {len(data(frags[i]))}', dict(w, pair=[lo, hi])))
+    except BaseException as e:
+        if e.__class__.__name__ == 'JobTimeout':
+            raise
+        viol.append(('concat-raises', f'long score ({len(lines)} lines): {type(e).__name__}', w))
+    return {'records': [engine.rec('long', viol=viol[:2], kind='long-score', key=('long', idx, len(lines)))]}
+
+
 def run(chk):
     b = core.standard_build(chk)
     model = core.Model() if b.modelrun_ok else None
@@ -113,6 +159,7 @@ def run(chk):
                 'sets of barline positions (0..5 cuts, up to 4 sets per size) into 1..6 fragments, separators newline and empty, fragments with and without a final line end; '
                 'non-trivial = distinct (fragments, separator)')
     results = engine.pmap(worker, [(chk.seed, i) for i in range(n)])
+    results += engine.pmap(long_worker, [(chk.seed, i) for i in range(2 if not full else 6)], nproc=6)
     engine.settle(chk, results, model)
     chk.disagreements_checked = len(chk.broken)
 
